@@ -26,8 +26,11 @@ def sh(cmd, timeout=1800, env=None, cwd=None):
     return p.returncode, (p.stdout + p.stderr)
 
 
+REPO = os.environ.get("VERIF_REPO", "/repo")     # a scratch worktree when several evaluations run side by side (one property per worker)
+
+
 def repo_clean():
-    rc, out = sh("git -C /repo status --porcelain")
+    rc, out = sh(f"git -C {REPO} status --porcelain")
     return out.strip() == ""
 
 
@@ -57,7 +60,7 @@ def collect(prop, src):
 
 
 def run_demo(dst):
-    env = dict(os.environ, PYTHONPATH="/repo")
+    env = dict(os.environ, PYTHONPATH=REPO)
     try:
         rc, out = sh([PY, "demo.py"], timeout=300, env=env, cwd=dst)
     except subprocess.TimeoutExpired:
@@ -68,7 +71,7 @@ def run_demo(dst):
 def run_check(pid, tier="quick"):
     t0 = time.time()
     try:
-        rc, out = sh([os.path.join(HERE, "check"), pid, "--tier", tier], timeout=900, cwd=HERE)
+        rc, out = sh([os.path.join(HERE, "check"), pid, "--tier", tier], timeout=(300 if tier == "quick" else 3000), cwd=HERE)
     except subprocess.TimeoutExpired:
         return {"exit": 124, "violation": None, "wall_s": round(time.time() - t0, 1)}
     vio = [l for l in out.splitlines() if l.startswith("VIOLATION")]
@@ -90,9 +93,9 @@ def evaluate(sid, all_checks=False, tier="quick"):
     meta = json.load(open(os.path.join(dst, "meta.json")))
     prop = meta["property"]
     if not repo_clean():
-        print("refusing: /repo is not clean")
+        print(f"refusing: {REPO} is not clean")
         return 2
-    res = {"id": sid, "property": prop, "repo_head": sh("git -C /repo rev-parse --short HEAD")[1].strip(), "tier": tier}
+    res = {"id": sid, "property": prop, "repo_head": sh(f"git -C {REPO} rev-parse --short HEAD")[1].strip(), "tier": tier}
     try:
         prev = json.load(open(os.path.join(dst, "result.json")))
         if not all_checks and "other_checks" in prev:
@@ -101,7 +104,7 @@ def evaluate(sid, all_checks=False, tier="quick"):
             res["other_checks_evaluated_at"] = prev.get("other_checks_evaluated_at", prev.get("repo_head"))
     except Exception:
         pass
-    rc, out = sh(f"git -C /repo apply --check {os.path.join(dst, 'patch.diff')}")
+    rc, out = sh(f"git -C {REPO} apply --check {os.path.join(dst, 'patch.diff')}")
     if rc != 0:
         res["applies"] = False
         res["note"] = out[-300:]
@@ -110,7 +113,7 @@ def evaluate(sid, all_checks=False, tier="quick"):
         return 1
     res["applies"] = True
     try:
-        sh(f"git -C /repo apply {os.path.join(dst, 'patch.diff')}")
+        sh(f"git -C {REPO} apply {os.path.join(dst, 'patch.diff')}")
         rc, out = run_demo(dst)
         res["demo_mutated_exit"] = rc
         res["demo_mutated_out"] = out.strip().splitlines()[-1][:300] if out.strip() else ""
@@ -124,8 +127,8 @@ def evaluate(sid, all_checks=False, tier="quick"):
                     if r["exit"] != 0:
                         res["other_checks"][pid] = r
     finally:
-        sh("git -C /repo checkout -- .")
-        sh("git -C /repo clean -fdq -- laspy")
+        sh(f"git -C {REPO} checkout -- .")
+        sh(f"git -C {REPO} clean -fdq -- laspy")
     rc, out = run_demo(dst)
     res["demo_clean_exit"] = rc
     res["confirmed"] = res.get("demo_mutated_exit") == 1 and rc == 0
@@ -167,10 +170,10 @@ def eval_refactor(rid):
     """a behaviour-preserving rewrite: every check must stay quiet"""
     dst = os.path.join(HERE, "seeded", "refactors", rid)
     if not repo_clean():
-        print("refusing: /repo is not clean")
+        print(f"refusing: {REPO} is not clean")
         return 2
-    res = {"id": rid, "repo_head": sh("git -C /repo rev-parse --short HEAD")[1].strip(), "alarms": {}}
-    rc, out = sh(f"git -C /repo apply --check {os.path.join(dst, 'patch.diff')}")
+    res = {"id": rid, "repo_head": sh(f"git -C {REPO} rev-parse --short HEAD")[1].strip(), "alarms": {}}
+    rc, out = sh(f"git -C {REPO} apply --check {os.path.join(dst, 'patch.diff')}")
     if rc != 0:
         res["applies"] = False
         json.dump(res, open(os.path.join(dst, "result.json"), "w"), indent=1)
@@ -178,7 +181,7 @@ def eval_refactor(rid):
         return 1
     res["applies"] = True
     try:
-        sh(f"git -C /repo apply {os.path.join(dst, 'patch.diff')}")
+        sh(f"git -C {REPO} apply {os.path.join(dst, 'patch.diff')}")
         from concurrent.futures import ThreadPoolExecutor
         pids = [f"C{i:02d}" for i in range(1, 21)]
         with ThreadPoolExecutor(max_workers=int(os.environ.get("VERIF_JOBS", "5"))) as ex:
@@ -194,8 +197,8 @@ def eval_refactor(rid):
                     pass
                 res["alarms"][pid] = r
     finally:
-        sh("git -C /repo checkout -- .")
-        sh("git -C /repo clean -fdq -- laspy")
+        sh(f"git -C {REPO} checkout -- .")
+        sh(f"git -C {REPO} clean -fdq -- laspy")
     json.dump(res, open(os.path.join(dst, "result.json"), "w"), indent=1)
     print(rid, "quiet" if not res["alarms"] else "ALARMS " + ",".join(sorted(res["alarms"])),
           "|", "; ".join((v.get("what") or (v.get("broken") or [""])[0] or "")[:140] for v in res["alarms"].values()))
